@@ -155,7 +155,10 @@ pub fn grammar(cases: &str, seed: u64, out: &str) {
         let ev = match guard(|| if via_py { cpy::named_new(&s).map_err(|_| ()) } else { NamedCal::try_new(&s).map_err(|_| ()) }) {
             Outcome::Ok(Ok(nc)) => {
                 if via_py {
-                    json!({"op":"name","key":format!("name/{}", s.to_lowercase()),"toks":toks,"str":s,"o":"ok","win":k+1,"via":"PyNamedCal",
+                    // what the Python getter `union_cal` hands out must answer as the named calendar does
+                    let (_, pu) = cpy::named_parts(&nc);
+                    let pyu_same = (lo..=hi).all(|d| { let x = dn(d); pu.is_bus_day(&x) == cpy::named_pred(&nc, "is_bus_day", x).unwrap_or(false) && pu.is_settlement(&x) == cpy::named_pred(&nc, "is_settlement", x).unwrap_or(false) });
+                    json!({"op":"name","key":format!("name/{}", s.to_lowercase()),"toks":toks,"str":s,"o":"ok","win":k+1,"via":"PyNamedCal","pyu_same":pyu_same,
                            "bus":bitmap(lo, hi, |d| cpy::named_pred(&nc, "is_bus_day", *d).unwrap_or(false)),
                            "stl":bitmap(lo, hi, |d| cpy::named_pred(&nc, "is_settlement", *d).unwrap_or(false))})
                 } else if via_type {
